@@ -313,9 +313,78 @@ def check_case(pr, method, rep=None, want=None, user_x0=False, warm=False):
     return fails
 
 
+OPTION_METHODS = ("auto", "SLSQP", "trust-constr", "L-BFGS-B", "TNC", "Nelder-Mead", "COBYLA", "BFGS")
+
+
+def _answer(call):
+    from mc.seams import result
+
+    return result(np.asarray(call.kw["x0"], dtype=float), fun=0.0)
+
+
+def _options_seen(P, **kw):
+    """(options, tol) handed to the back-end by one solve whose back-end call is answered by the environment"""
+    import warnings as _w
+
+    with _w.catch_warnings():
+        _w.simplefilter("ignore")
+        with Seam(script=[_answer] * 4, passthrough=False) as s:
+            P.solve(**kw)
+    mins = [cl for cl in s.calls if cl.kind == "minimize"]
+    if not mins:
+        return None
+    o = mins[0].kw.get("options")
+    return (dict(o) if o else {}), mins[0].kw.get("tol")
+
+
+def check_option_history(pr, method, rep=None, want=None):
+    """Per-call solver options are per call: a plain solve hands over no iteration cap or tolerance of its own making, a
+    solve with maxiter / tol hands over exactly those, and a LATER plain solve - of the same problem object and of a
+    freshly built one - hands over what the first plain solve did."""
+    fails = Fails(want)
+    kw = {} if method == "auto" else {"method": method}
+    try:
+        P1, _, _ = PR.build_problem(pr)
+        first = _options_seen(P1, **kw)
+        P2, _, _ = PR.build_problem(pr)
+        capped = _options_seen(P2, maxiter=2, tol=1e-2, **kw)
+        again_same = _options_seen(P2, **kw)
+        again_first = _options_seen(P1, **kw)
+        P3, _, _ = PR.build_problem(pr)
+        fresh = _options_seen(P3, **kw)
+    except Exception as ex:
+        fails.add("exception:option-history:" + type(ex).__name__, method=method, msg=str(ex)[:200])
+        return fails
+    if rep:
+        rep.states += 1
+        rep.transitions += 5
+        rep.evaluations += 5
+    if None in (first, capped, again_same, again_first, fresh):
+        return fails
+    if "maxiter" in first[0] or first[1] is not None:
+        fails.add("plain-solve-hands-over-options-the-user-did-not-give", method=method, options=first[0], tol=first[1])
+    if capped[0].get("maxiter") != 2 or capped[1] != 1e-2:
+        fails.add("explicit-options-not-passed-through", method=method, options=capped[0], tol=capped[1])
+    for lab, got in (("same-problem", again_same), ("first-problem", again_first), ("fresh-problem", fresh)):
+        if got != first:
+            fails.add("options-of-an-earlier-solve-leak:" + lab, method=method, got=got, expected=first)
+            break
+    return fails
+
+
 def explore(item, tier, seed):
     i, n = item
     rep = Report()
+    if i == 0 or tier == "thorough":
+        # option histories: first thing in the worker (an option leak is process-global state)
+        seen_ = set()
+        for idx, lab, pr, m in all_cases(tier):
+            if (lab[1], bool(pr[3])) in seen_ or len(seen_) >= (4 if tier == "quick" else 12):
+                continue
+            seen_.add((lab[1], bool(pr[3])))
+            for m_ in OPTION_METHODS:
+                for k, d in check_option_history(pr, m_, rep):
+                    rep.violation(k, {"label": lab, "problem": pr, "method": m_, "options": True}, **d)
     for idx, lab, pr, m in all_cases(tier):
         if idx % n != i:
             continue
@@ -343,6 +412,8 @@ def culprit(v):
 
 def replay(art):
     case = art["violation"]["case"]
+    if case.get("options"):
+        return [{"kind": k, "detail": d} for k, d in check_option_history(detuple(case["problem"]), case["method"], None, want=art["culprit"]["kind"])]
     if case.get("warm"):
         kind = art["culprit"]["kind"].replace(":after-objective-replacement", "")
         fs = check_case(detuple(case["problem"]), case["method"], None, want=kind, warm=True)
